@@ -221,5 +221,359 @@ theorem inv_newGlyph_core (P : Params V) (T : Tables) (hcov : Coverage T = true)
             exact hex ⟨m, by rw [hgs1]; exact hrd⟩
       · simp [hbi]
 
+/-! ### deletion -/
+
+theorem evictObj_with_glyphs (T : Tables) (w : World V) (G : Layer) (o : Obj) (n : String) :
+    ({ evictObj T w o n with glyphs := G } : World V) = evictObj T { w with glyphs := G } o n := rfl
+
+theorem applyDeliv_with_glyphs (T : Tables) (w : World V) (G : Layer) (ds : List (Obj × String)) :
+    ({ applyDeliv T w ds with glyphs := G } : World V) = applyDeliv T { w with glyphs := G } ds := by
+  unfold applyDeliv
+  induction ds generalizing w with
+  | nil => rfl
+  | cons d r ih =>
+    simp only [List.foldl_cons]
+    rw [ih]; rfl
+
+theorem sameStruct_dropMany (w : World V) (gone : List Obj) : SameStruct w (gone.foldl dropCache w) := by
+  induction gone generalizing w with
+  | nil => exact SameStruct.refl w
+  | cons o r ih => exact (sameStruct_dropCache w o).trans (ih _)
+
+theorem cacheOf_dropMany (w : World V) (gone : List Obj) (o : Obj) :
+    cacheOf (gone.foldl dropCache w) o = if o ∈ gone then [] else cacheOf w o := by
+  induction gone generalizing w with
+  | nil => simp
+  | cons a r ih =>
+    simp only [List.foldl_cons]
+    rw [ih, cacheOf_dropCache]
+    by_cases h1 : o ∈ r
+    · simp [h1]
+    · by_cases h2 : a = o
+      · subst h2; simp [h1]
+      · have : ¬ o = a := fun e => h2 e.symm
+        simp [h1, h2, this]
+
+theorem eraseAll_mapAllComps (gs : Layer) (f : CompS → CompS) (name : String) :
+    eraseAll (mapAllComps gs f) name = mapAllComps (eraseAll gs name) f := by
+  unfold eraseAll mapAllComps
+  rw [List.filter_map]
+  rfl
+
+theorem find?_filter_pos {α : Type} (l : List α) (q pf : α → Bool) (p : α) (h : l.find? q = some p) (hp : pf p = true) :
+    (l.filter pf).find? q = some p := by
+  induction l with
+  | nil => cases h
+  | cons a r ih =>
+    simp only [List.find?_cons] at h
+    cases hq : q a with
+    | true =>
+      rw [hq] at h
+      simp only [Option.some.injEq] at h
+      subst h
+      simp [List.filter_cons, hp, List.find?_cons, hq]
+    | false =>
+      rw [hq] at h
+      by_cases hpa : pf a = true
+      · simp only [List.filter_cons, hpa, if_true, List.find?_cons, hq]
+        exact ih h
+      · simp only [List.filter_cons, hpa]
+        exact ih h
+
+theorem find?_filter_none {α : Type} (l : List α) (q pf : α → Bool) (h : l.find? q = none) :
+    (l.filter pf).find? q = none := by
+  rw [List.find?_eq_none] at h ⊢
+  intro x hx
+  exact h x (List.mem_filter.mp hx).1
+
+/-- the outline of everything that does not read `name` survives the deletion of `name` -/
+theorem outline_erase (n : Nat) (gs : Layer) (name : String) (c : String)
+    (hno : ∀ m, ¬ ReadsN gs m c name) : outline n (eraseAll gs name) c = outline n gs c := by
+  apply outline_agree
+  intro m b hr
+  by_cases e : name = b
+  · subst e; exact absurd hr (hno m)
+  · rw [get?_eraseAll]; simp [e]
+
+theorem inv_skeleton_drop (P : Params V) (T : Tables) (w w3 : World V) (ds : List (Obj × String)) (gone : List Obj)
+    (hinv : Inv P T w) (hrg : w3.regs = w.regs)
+    (hent : ∀ o nm sk v, (cacheOf w3 o).get? nm sk = some v → (cacheOf w o).get? nm sk = some v)
+    (hloose : ∀ o, attached w3 o = false → o ∈ gone ∨ ∀ nm sk, (cacheOf w3 o).get? nm sk = none)
+    (hview : ∀ o nm sk v, o ∉ gone → (cacheOf (applyDeliv T w3 ds) o).get? nm sk = some v →
+      viewOf T w3 o nm = viewOf T w o nm) : Inv P T (gone.foldl dropCache (applyDeliv T w3 ds)) := by
+  have hss := (sameStruct_applyDeliv T w3 ds).trans (sameStruct_dropMany (applyDeliv T w3 ds) gone)
+  have hsurv : ∀ o nm sk v, (cacheOf (gone.foldl dropCache (applyDeliv T w3 ds)) o).get? nm sk = some v →
+      o ∉ gone ∧ (cacheOf (applyDeliv T w3 ds) o).get? nm sk = some v := by
+    intro o nm sk v hv
+    rw [cacheOf_dropMany] at hv
+    by_cases e : o ∈ gone
+    · simp [e, Cache.get?] at hv
+    · simp only [e, if_false] at hv; exact ⟨e, hv⟩
+  refine ⟨?_, ?_, ?_, ?_⟩
+  · intro o nm sk v hv
+    obtain ⟨hng, hs⟩ := hsurv _ _ _ _ hv
+    have h1 := (get?_applyDeliv T w3 ds o nm sk v hs).1
+    unfold fresh
+    rw [viewOf_congr T hss, hview o nm sk v hng hs]
+    exact hinv.coh _ _ _ _ (hent _ _ _ _ h1)
+  · intro o ha nm sk
+    rw [attached_congr hss] at ha
+    cases hc : (cacheOf (gone.foldl dropCache (applyDeliv T w3 ds)) o).get? nm sk with
+    | none => rfl
+    | some v =>
+      obtain ⟨hng, hs⟩ := hsurv _ _ _ _ hc
+      have h1 := (get?_applyDeliv T w3 ds o nm sk v hs).1
+      rcases hloose o ha with hg | hn
+      · exact absurd hg hng
+      · rw [hn nm sk] at h1; cases h1
+  · intro o nm sk v hv
+    obtain ⟨_, hs⟩ := hsurv _ _ _ _ hv
+    have h1 := (get?_applyDeliv T w3 ds o nm sk v hs).1
+    rw [hss.regs, hrg]
+    exact hinv.creg _ _ _ _ (hent _ _ _ _ h1)
+  · intro r hr'
+    rw [hss.regs, hrg] at hr'
+    exact hinv.rdef r hr'
+
+theorem mem_goneObjs_contour {name : String} {g : GlyphS} {cid : Nat} (h : hasContour cid g = true) :
+    Obj.contour cid ∈ goneObjs name g := by
+  unfold hasContour at h
+  rw [List.any_eq_true] at h
+  obtain ⟨c, hc, hid⟩ := h
+  simp only [decide_eq_true_eq] at hid
+  unfold goneObjs
+  simp only [List.mem_cons, List.mem_append, List.mem_map]
+  exact Or.inr (Or.inl ⟨c, hc, by rw [hid]⟩)
+
+theorem mem_goneObjs_comp {name : String} {g : GlyphS} {kid : Nat} (h : hasComp kid g = true) :
+    Obj.comp kid ∈ goneObjs name g := by
+  unfold hasComp at h
+  rw [List.any_eq_true] at h
+  obtain ⟨c, hc, hid⟩ := h
+  simp only [decide_eq_true_eq] at hid
+  unfold goneObjs
+  simp only [List.mem_cons, List.mem_append, List.mem_map]
+  exact Or.inr (Or.inr ⟨c, hc, by rw [hid]⟩)
+
+/-- a host other than `name` is still the host after `name` was deleted; a host `name` means the
+object is among those dropped with the glyph -/
+theorem host_after_erase (gs : Layer) (hn : (AL.keys gs).Nodup) (name : String) (g : GlyphS)
+    (hg : AL.get? gs name = some g) (pred : GlyphS → Bool) :
+    ((gs.find? fun p => pred p.2) = none ∧ ((eraseAll gs name).find? fun p => pred p.2) = none) ∨
+    (∃ p, (gs.find? fun p => pred p.2) = some p ∧ p.1 ≠ name ∧ ((eraseAll gs name).find? fun p => pred p.2) = some p) ∨
+    pred g = true := by
+  cases hf : gs.find? (fun p => pred p.2) with
+  | none => exact Or.inl ⟨rfl, find?_filter_none _ _ _ hf⟩
+  | some p =>
+    by_cases e : p.1 = name
+    · refine Or.inr (Or.inr ?_)
+      have hm := List.mem_of_find?_eq_some hf
+      have := AL.get?_of_mem_nodup hn hm
+      rw [e, hg] at this
+      have hp := List.find?_some hf
+      rw [← Option.some.inj this] at hp
+      exact hp
+    · refine Or.inr (Or.inl ⟨p, rfl, e, ?_⟩)
+      unfold eraseAll
+      exact find?_filter_pos _ _ _ p hf (by simpa using e)
+
+/-- `del layer[name]`, stated on explicit intermediate worlds -/
+theorem inv_delGlyph_core (P : Params V) (T : Tables) (hcov : Coverage T = true) (w w2 w3 : World V) (name : String)
+    (g : GlyphS) (hinv : Inv P T w) (hdom : Dom w) (hg : AL.get? w.glyphs name = some g)
+    (hgs2 : w2.glyphs = mapAllComps w.glyphs (setWatch (watchesBase name) Watch.layer))
+    (hgs3 : w3.glyphs = eraseAll w2.glyphs name) (hlc : w3.looseC = w.looseC) (hlk : w3.looseK = w.looseK)
+    (hf : w3.fuel = w.fuel) (hgv : w3.groupsVer = w.groupsVer) (hrg : w3.regs = w.regs) (hca : w3.caches = w.caches) :
+    Inv P T ((goneObjs name g).foldl dropCache
+      (applyDeliv T w3 (switchDs T w (watchesBase name) Watch.layer "layerGlyphWillBeDeletedNotificationCallback"))) := by
+  have hkd := keepsData_setWatch (watchesBase name) Watch.layer
+  -- the erased layer, before switching
+  have hgs3' : w3.glyphs = mapAllComps ({ w with glyphs := eraseAll w.glyphs name } : World V).glyphs
+      (setWatch (watchesBase name) Watch.layer) := by
+    rw [hgs3, hgs2, eraseAll_mapAllComps]
+  have hvm := fun o nm => view_mapAll hkd T ({ w with glyphs := eraseAll w.glyphs name } : World V) w3 hgs3' hlc hlk hf hgv o nm
+  have hent : ∀ o nm sk v, (cacheOf w3 o).get? nm sk = some v → (cacheOf w o).get? nm sk = some v := by
+    intro o nm sk v hv; rw [cacheOf_eq_of_caches hca] at hv; exact hv
+  have hb2 : Bounded w2.glyphs w.fuel := by rw [hgs2]; exact (bounded_mapAllComps hkd _ _).mpr hdom.bounded
+  have hWx : ∀ x' g' k x, AL.get? w2.glyphs x' = some g' → k ∈ g'.comps → k.base = some x → x ≠ name →
+      AL.contains w2.glyphs x = true → k.watch = Watch.base := by
+    intro x' g' k x hg' hk hbx hne hcx
+    rw [hgs2, get?_mapAllComps] at hg'
+    rw [hgs2, contains_mapAllComps] at hcx
+    cases hg0 : AL.get? w.glyphs x' with
+    | none => rw [hg0] at hg'; cases hg'
+    | some g0 =>
+      rw [hg0] at hg'
+      simp only [Option.map_some, Option.some.injEq] at hg'
+      subst hg'
+      simp only [List.mem_map] at hk
+      obtain ⟨k0, hk0, e⟩ := hk
+      subst e
+      rw [hkd.base] at hbx
+      have hns : watchesBase name k0 = false := by
+        unfold watchesBase
+        have : ¬ k0.base = some name := by rw [hbx]; intro e; exact hne (Option.some.inj e)
+        simp [this]
+      simp only [setWatch, hns, Bool.false_eq_true, if_false]
+      exact hdom.watch x' g0 k0 x hg0 hk0 hbx hcx
+  have hsel : ∀ z gz kz, AL.get? w2.glyphs z = some gz → kz ∈ gz.comps → kz.base = some name →
+      ∀ y, y ∈ compDeliv w.fuel T w2.glyphs z kz.id (T.postsOf "Component" "layerGlyphWillBeDeletedNotificationCallback") →
+        y ∈ switchDs T w (watchesBase name) Watch.layer "layerGlyphWillBeDeletedNotificationCallback" := by
+    intro z gz kz hgz hkz hbz y hy
+    rw [hgs2, get?_mapAllComps] at hgz
+    cases hg0 : AL.get? w.glyphs z with
+    | none => rw [hg0] at hgz; cases hgz
+    | some g0 =>
+      rw [hg0] at hgz
+      simp only [Option.map_some, Option.some.injEq] at hgz
+      subst hgz
+      simp only [List.mem_map] at hkz
+      obtain ⟨k0, hk0, e⟩ := hkz
+      subst e
+      rw [hkd.base] at hbz
+      rw [hkd.id] at hy
+      have hwat := hdom.watch z g0 k0 name hg0 hk0 hbz (by simp [AL.contains, hg])
+      refine mem_switchDs hg0 hk0 (by simp [watchesBase, hwat, hbz]) ?_
+      rw [hgs2] at hy; exact hy
+  have hhits := fun {x' gx k c m} => switch_hits T hcov w2.glyphs w.fuel name "layerGlyphWillBeDeletedNotificationCallback" _
+    (by simp [compCallbacks]) hb2 hWx hsel (x' := x') (gx := gx) (k := k) (c := c) (m := m)
+  have hmapped : ∀ x' gx', AL.get? w.glyphs x' = some gx' →
+      AL.get? w2.glyphs x' = some { gx' with comps := gx'.comps.map (setWatch (watchesBase name) Watch.layer) } := by
+    intro x' gx' h; rw [hgs2, get?_mapAllComps, h]; rfl
+  refine inv_skeleton_drop P T w w3 _ _ hinv hrg hent ?_ ?_
+  · -- what is no longer attached was not attached, or went with the glyph
+    intro o ha
+    rw [(hvm o "").2] at ha
+    cases hao : attached w o with
+    | false => exact Or.inr (fun nm sk => by rw [cacheOf_eq_of_caches hca]; exact hinv.loose o hao nm sk)
+    | true =>
+      refine Or.inl ?_
+      cases o with
+      | groups => simp [attached] at ha
+      | glyph x =>
+        simp only [attached] at ha hao
+        have : x = name := by
+          cases hcx : AL.get? (eraseAll w.glyphs name) x with
+          | some _ => simp [AL.contains, hcx] at ha
+          | none =>
+            rw [get?_eraseAll] at hcx
+            by_cases e : name = x
+            · exact e.symm
+            · simp only [e, if_false] at hcx
+              simp [AL.contains, hcx] at hao
+        subst this
+        simp [goneObjs]
+      | contour cid =>
+        simp only [attached, hostOfContour] at ha hao
+        rcases host_after_erase w.glyphs hdom.ids.keys name g hg (hasContour cid) with ⟨h1, _⟩ | ⟨p, _, _, h3⟩ | h4
+        · rw [h1] at hao; cases hao
+        · rw [h3] at ha; cases ha
+        · exact mem_goneObjs_contour h4
+      | comp kid =>
+        simp only [attached, hostOfComp] at ha hao
+        rcases host_after_erase w.glyphs hdom.ids.keys name g hg (hasComp kid) with ⟨h1, _⟩ | ⟨p, _, _, h3⟩ | h4
+        · rw [h1] at hao; cases hao
+        · rw [h3] at ha; cases ha
+        · exact mem_goneObjs_comp h4
+  · intro o nm sk v hng hs
+    have h1 := hent _ _ _ _ (get?_applyDeliv T w3 _ o nm sk v hs).1
+    rw [(hvm o nm).1]
+    have hatt : attached w o = true := by
+      cases ha : attached w o with
+      | true => rfl
+      | false => rw [hinv.loose o ha nm sk] at h1; cases h1
+    cases o with
+    | groups => simp [viewOf]
+    | contour cid =>
+      apply viewOf_contour_of_find
+      simp only [attached, hostOfContour] at hatt
+      unfold findContour hostOfContour
+      simp only
+      rcases host_after_erase w.glyphs hdom.ids.keys name g hg (hasContour cid) with ⟨h1', _⟩ | ⟨p, h2, _, h3⟩ | h4
+      · rw [h1'] at hatt; cases hatt
+      · rw [h2, h3]
+      · exact absurd (mem_goneObjs_contour h4) hng
+    | glyph x =>
+      have hxne : name ≠ x := by intro e; subst e; exact hng (by simp [goneObjs])
+      simp only [viewOf]
+      rw [get?_eraseAll]
+      simp only [hxne, if_false]
+      cases hgx : AL.get? w.glyphs x with
+      | none => rfl
+      | some gx =>
+        simp only [Option.map_some, Option.getD_some]
+        by_cases hex : ∃ k c m, k ∈ gx.comps ∧ k.base = some c ∧ ReadsN w.glyphs m c name
+        · exfalso
+          obtain ⟨k, c, m, hk, hb, hrd⟩ := hex
+          obtain ⟨d, y, hd, hy, hhit⟩ := (hhits (hmapped x gx hgx) (List.mem_map_of_mem hk) (by rw [hkd.base]; exact hb)
+            (by rw [hgs2]; exact (readsN_mapAllComps hkd _).mpr hrd)).2 w.regs nm hinv.rdef (hinv.creg _ _ _ _ h1).1
+          exact not_survivor hs (by rw [hrg]; exact hd) hy hhit
+        · have key : glyphOutline w.fuel (eraseAll w.glyphs name) gx = glyphOutline w.fuel w.glyphs gx := by
+            unfold glyphOutline bodyWith
+            congr 3
+            apply flatMap_congr'
+            intro k hk
+            unfold compHead
+            cases hb : k.base with
+            | none => rfl
+            | some c =>
+              simp only
+              rw [outline_erase]
+              intro m hrd
+              exact hex ⟨k, c, m, hk, hb, hrd⟩
+          unfold glyphView
+          rw [key]
+    | comp kid =>
+      simp only [attached, hostOfComp] at hatt
+      have hfind : findComp ({ w with glyphs := eraseAll w.glyphs name } : World V) kid = findComp w kid := by
+        unfold findComp hostOfComp
+        simp only
+        rcases host_after_erase w.glyphs hdom.ids.keys name g hg (hasComp kid) with ⟨h1', _⟩ | ⟨p, h2, _, h3⟩ | h4
+        · rw [h1'] at hatt; cases hatt
+        · rw [h2, h3]
+        · exact absurd (mem_goneObjs_comp h4) hng
+      obtain ⟨k0, hk0⟩ : ∃ k0, findComp w kid = some k0 := by
+        unfold findComp
+        cases hh : hostOfComp w.glyphs kid with
+        | none => simp only [hostOfComp] at hh; rw [hh] at hatt; cases hatt
+        | some p =>
+          simp only
+          have := List.find?_some hh
+          exact compIn_of_has (by simpa [hostOfComp] using this)
+      simp only [viewOf, hfind, hk0, Option.map_some, Option.getD_some]
+      unfold compView
+      by_cases hbi : isBuiltin T "Component" nm = true
+      · simp only [hbi, if_true]
+        unfold compToks compHead
+        cases hb : k0.base with
+        | none => rfl
+        | some c =>
+          simp only
+          by_cases hex : ∃ m, ReadsN w.glyphs m c name
+          · exfalso
+            obtain ⟨m, hrd⟩ := hex
+            obtain ⟨x', gx', hgx', hkm⟩ := findComp_attached w hdom.ids.keys kid k0
+              (by simp only [attached, hostOfComp]; exact hatt) hk0
+            obtain ⟨d, y, hd, hy, hhit⟩ := (hhits (hmapped x' gx' hgx') (List.mem_map_of_mem hkm) (by rw [hkd.base]; exact hb)
+              (by rw [hgs2]; exact (readsN_mapAllComps hkd _).mpr hrd)).1 nm hbi
+            rw [hkd.id, findComp_id hk0] at hy
+            exact not_survivor hs (mem_facsOf_builtin hd) hy hhit
+          · rw [outline_erase]
+            intro m hrd
+            exact hex ⟨m, hrd⟩
+      · simp [hbi]
+
+/-- `Layer.newGlyph` on an absent name -/
+theorem inv_newGlyph (P : Params V) (T : Tables) (hcov : Coverage T = true) (w : World V) (name : String)
+    (hinv : Inv P T w) (hdom : Dom w) (hdom' : Dom (doNewGlyph T w name).1) : Inv P T (doNewGlyph T w name).1 := by
+  unfold doNewGlyph at hdom' ⊢
+  by_cases hc : AL.contains w.glyphs name = true
+  · simpa [hc] using hinv
+  · have hc' : AL.contains w.glyphs name = false := by simpa using hc
+    simp only [hc', Bool.false_eq_true, if_false] at hdom' ⊢
+    rw [switchAndPost_eq] at hdom' ⊢
+    have hd2 := Dom.congr (sameStruct_applyDeliv T _ _).symm hdom'
+    exact inv_newGlyph_core P T hcov w _ _ name w.clock hinv hdom (get?_none_of_not_contains hc')
+      rfl rfl rfl rfl rfl rfl rfl rfl rfl rfl rfl rfl hd2
+
 end Repr
 end DefconModel
